@@ -13,7 +13,7 @@ use uom::si::length::meter;
 pub fn def() -> PropDef {
     PropDef {
         id: "C15",
-        rule: "inputs: the point multisets of C14 (clouds, several tracks, degenerate families, exact duplicates, 0..2000 points) and track lists of 0..8 hook-built tracks with ties, plus tracks fitted from generated clusters; oracle: (1) multiset(points of all clusters) + multiset(remainder) == multiset(input) comparing r, phi, z by bits; (2) every cluster has >= 13 points; (3) every cluster is connected under single linkage at 3 cm (union-find with SpacePoint::distance, threshold 3 cm x (1 + 1e-9)); (4) multiset(primary tracks) + multiset(secondaries' tracks) + multiset(remainder) == input tracks (helix parameters and end parameters by bits), primary has >= 2 tracks; non-trivial = >= 1 cluster together with a non-empty remainder, duplicates in the input, or a primary vertex with a non-empty remainder; distinct by case hash",
+        rule: "inputs: the point multisets of C14 (clouds, several tracks, degenerate families, exact duplicates, 0..2000 points; sparse staircases on one circle through the origin with arc step 10-36 mm and z step 0-36 mm, i.e. neighbour distances on both sides of the 3 cm linkage, alone, in pairs and inside clouds) and track lists of 0..8 hook-built tracks with ties, plus tracks fitted from generated clusters; oracle: (1) multiset(points of all clusters) + multiset(remainder) == multiset(input) comparing r, phi, z by bits; (2) every cluster has >= 13 points; (3) every cluster is connected under single linkage at 3 cm (union-find with SpacePoint::distance, threshold 3 cm x (1 + 1e-9)); (4) multiset(primary tracks) + multiset(secondaries' tracks) + multiset(remainder) == input tracks (helix parameters and end parameters by bits), primary has >= 2 tracks; non-trivial = >= 1 cluster together with a non-empty remainder, duplicates in the input, or a primary vertex with a non-empty remainder; distinct by case hash",
         assumptions: &["track identity is read through reconstruction::verif_hooks::helix_params"],
         run,
         replay,
@@ -144,8 +144,32 @@ fn fitted_vertexing(c: &PointsCase, ev: &mut Ev) -> Outcome {
     Ok(())
 }
 
+/// Sparse cases: staircases whose neighbour distance straddles the 3 cm
+/// linkage, alone or with a cloud / a second staircase around them.
+fn sparse_case() -> impl proptest::strategy::Strategy<Value = PointsCase> {
+    use proptest::prelude::*;
+    let stair = (staircase(), 13u16..=40, any::<u64>()).prop_map(|(family, n, seed)| Group { family, n, seed });
+    (proptest::collection::vec(stair, 1..=3), proptest::option::weighted(0.3, (20u16..200, any::<u64>())), proptest::collection::vec((any::<u16>(), 1u8..3), 0..=2)).prop_map(|(mut groups, cloud, duplicates)| {
+        if let Some((n, seed)) = cloud {
+            groups.push(Group { family: Family::Cloud, n, seed });
+        }
+        PointsCase { groups, duplicates }
+    })
+}
+
+fn sparse(c: &PointsCase, ev: &mut Ev) -> Outcome {
+    for g in &c.groups {
+        if let Family::Staircase { xy_mm, z_mm } = g.family {
+            let d = (xy_mm as f64).hypot(z_mm as f64);
+            ev.label(if d <= 28.0 { "staircase:link<=2.8cm" } else if d <= 30.0 { "staircase:link 2.8-3cm" } else if xy_mm <= 30 && z_mm <= 30 { "staircase:link>3cm, both components <=3cm" } else { "staircase:link>3cm" });
+        }
+    }
+    clustering(c, ev)
+}
+
 fn run(r: &Run) {
     let t = r.tier;
+    r.prop("clustering_sparse_staircases", t.pick(6_000, 300_000), sparse_case, sparse);
     r.prop("clustering_partition", t.pick(10_000, 400_000), || points_case(300), clustering);
     r.prop("clustering_partition_large", t.pick(32, 2_000), || points_case(2000), clustering);
     r.prop("vertexing_partition", t.pick(12_000, 600_000), track_set, vertexing);
@@ -154,7 +178,7 @@ fn run(r: &Run) {
 
 fn replay(_r: &Run, check: &str, case: &Value) -> Option<Outcome> {
     Some(match check {
-        "clustering_partition" | "clustering_partition_large" => replay_case(case, clustering),
+        "clustering_partition" | "clustering_partition_large" | "clustering_sparse_staircases" => replay_case(case, clustering),
         "vertexing_partition" => replay_case(case, vertexing),
         "vertexing_fitted_tracks" => replay_case(case, fitted_vertexing),
         _ => return None,
